@@ -374,6 +374,18 @@ def run_oracles(prog, meta, sessions):
                 if exp != inc:
                     out.append(('C09', 'check-task-verdict', '%s: require dependency on task %s (checker %d, stamp %d) was reported %s although its output is %d' % (where, f[1], c, st, 'inconsistent' if inc else 'consistent', o)))
 
+        # ---- C07: no task starts executing while an execution of it is open (C07_no_task_entered_while_executing_any_session)
+        open_ = []
+        for e in s.events:
+            f = e.split()
+            if f[0] == 'XS':
+                if f[1] in open_:
+                    out.append(('C07', 'reentered-while-executing', '%s: task %s started executing while an execution of it was still in progress (open: %s)' % (where, f[1], ' '.join(open_))))
+                    break
+                open_.append(f[1])
+            elif f[0] == 'XE' and f[1] in open_:
+                open_.remove(f[1])
+
         # ---- C17
         msg = P.nesting_check(s.events, ab)
         if msg:
